@@ -114,6 +114,25 @@ def _make_cb(tag):
     return _CB_CACHE[tag]
 
 
+def probe_function(module, name, tag, recorder):
+    """Replace the module-level function `name` by a wrapper that additionally reports (array args, out) through
+    jax.debug.callback (works on tracers inside jit / grad). Returns the undo triple."""
+    import jax
+
+    _CURRENT["rec"] = recorder
+    orig = getattr(module, name)
+
+    def wrapper(*args, **kwargs):
+        out = orig(*args, **kwargs)
+        arrs = [a for a in args if hasattr(a, "shape") and hasattr(a, "dtype") and getattr(a.dtype, "kind", "") in "fiub"]
+        jax.debug.callback(_make_cb(tag), arrs, out)
+        return out
+
+    wrapper._rlsim_wrapped = orig
+    setattr(module, name, wrapper)
+    return (module, name, orig)
+
+
 def make_probe_logger(on_event=None):
     """ProbeLogger subclasses the repository's LoggerBase (imported lazily)."""
     from rl_blox.logging.logger import LoggerBase
